@@ -76,7 +76,7 @@ class Case final : public sim::CaseBase {
     pool_workers = 1 + g.Draw(2);
     prod_delay = g.Draw(5);
     id = 1 + g.Noise(1000);
-    const std::uint32_t max_ops = 4;
+    const std::uint32_t max_ops = sim::Thorough() ? 8 : 4;
     for (int o = 0; o < observers; ++o) {
       std::vector<int> ops;
       const std::uint32_t n = 1 + g.Draw(max_ops);
